@@ -59,7 +59,7 @@ impl BoxedUint {
         let (lo, carry) = mac_by_limb(&lo, &hi, c, Limb::ZERO);
 
         let (lo, carry) = {
-            let rhs = (carry.0 + 1) as WideWord * c.0 as WideWord;
+            let rhs = (carry.0 as WideWord + 1) * c.0 as WideWord;
             lo.adc(&Self::from(rhs), Limb::ZERO)
         };
 
